@@ -290,14 +290,14 @@ def main():
             astp = ". %s . %s %s" % (K, ast_c, M)
             src = "k" + csrc + "m"
             if not icase:
-                # the same class INSIDE a four-byte atom (kk<class>m) and right after / before one (kkmm<class>, <class>kkmm): wildcard atoms are expanded over all byte values
-                for (pre, post) in (("kk", "m"), ("kkmm", ""), ("", "kkmm")):
+                # the same class INSIDE a four-byte atom (ab<class>d, a<class>cd) and right after / before one (abcd<class>, <class>abcd): wildcard atoms are expanded over all byte values
+                for (pre, post) in (("ab", "d"), ("a", "cd"), ("abcd", ""), ("", "abcd")):
                     parts = ["B %02x ff 0" % ord(ch) for ch in pre] + [ast_c] + ["B %02x ff 0" % ord(ch) for ch in post]
                     a2 = " ".join(". " + p_ for p_ in parts[:-1]) + " " + parts[-1]
                     clsj.append(prog(pid(), pre + csrc + post, a2, "s", "", "", "class-range:in-atom"))
                 if csrc == ".":
-                    a3 = ". B 6b ff 0 . B 6b ff 0 . %s B 6d ff 0" % cls_hex(set(range(256)))
-                    clsj.append(prog(pid(), "kk.m", a3, "s", "", "s", "class-range:in-atom:/s"))
+                    a3 = ". B 61 ff 0 . B 62 ff 0 . %s B 64 ff 0" % cls_hex(set(range(256)))
+                    clsj.append(prog(pid(), "ab.d", a3, "s", "", "s", "class-range:in-atom:/s"))
             if icase:
                 clsj.append(prog(pid(), src, astp, "s", "", "i", "class-range:/i"))
                 clsj.append(prog(pid(), src, astp, "s", "nocase", "", "class-range:nocase"))
@@ -305,7 +305,7 @@ def main():
             else:
                 clsj.append(prog(pid(), src, astp, "s", "", "", "class-range"))
                 clsj.append(prog(pid(), src, astp, "m", "", "", "class-range"))
-    sp_cls = ["B list " + " ".join((pre + bytes([c]) + post).hex() for c in range(256) for (pre, post) in ((b"k", b"m"), (b"K", b"M"), (b"-k", b"m-"), (b"kk", b"m"), (b"kkmm", b""), (b"", b"kkmm"), (b"-kk", b"m-")))]
+    sp_cls = ["B list " + " ".join((pre + bytes([c]) + post).hex() for c in range(256) for (pre, post) in ((b"k", b"m"), (b"K", b"M"), (b"-k", b"m-"), (b"ab", b"d"), (b"a", b"cd"), (b"abcd", b""), (b"", b"abcd"), (b"-ab", b"d-")))]
     lb = 5 if quick else 6
     sp_main = ["B all %s %d" % (ALPHA.hex(), lb)]
     sp4 = ["B all %s %d" % (ALPHA.hex(), 4 if quick else 5)]
